@@ -86,3 +86,34 @@ def run_segment(spec):
                     versions[key] = "!%s: %s" % (type(e).__name__, str(e)[:200])
         out.append({"results": results, "trace": verif_rt.take(), "versions": versions})
     return out
+
+
+def run_versions(spec):
+    """
+    spec = {"pkgroot","pkg","modules","store","query":[[mod,name]...],"roots":[[mod,name]...],"args":[...],"call":bool}
+    -> {"versions": {mod.name: version}, "results": {...}, "trace": [...]}
+    """
+    import verif_rt
+    setup_memento(spec["store"])
+    mods = import_program(spec["pkgroot"], spec["pkg"], spec["modules"])
+    versions = {}
+    for mname, name in spec["query"]:
+        fn = getattr(mods[mname], name)
+        try:
+            versions["%s.%s" % (mname, name)] = fn.version()
+        except BaseException as e:  # noqa
+            versions["%s.%s" % (mname, name)] = "!%s: %s" % (type(e).__name__, str(e)[:200])
+    verif_rt.take()
+    results = {}
+    if spec.get("call"):
+        for mname, name in spec["roots"]:
+            fn = getattr(mods[mname], name)
+            results["%s.%s" % (mname, name)] = [call_outcome(fn, a) for a in spec["args"]]
+    return {"versions": versions, "results": results, "trace": verif_rt.take()}
+
+
+if __name__ == "__main__":
+    import json
+    spec = json.load(open(sys.argv[1]))
+    res = run_versions(spec)
+    sys.stdout.write("\n@@RESULT@@" + json.dumps(res) + "\n")
